@@ -52,6 +52,9 @@ def run_case(cls, params, rec):
 	A, L, n, ns = params["A"], params["L"], params["n"], params["n_shuffles"]
 	model = dls.build(spec, params["wseed"], params.get("weights", "float"))
 	X, refs = make_inputs(dict(params, refs="given"))
+	# same values handed over as views into larger storages
+	params, X, _ = gen.apply_layout(params, rec, X)
+	refs = gen.relayout(refs, gen.layout_of(params, "refs"))[0]
 	if params.get("prior_float32_call"):
 		# call history on the SAME model object: used in single precision
 		# first, then converted to double (anything cached on the modules by
